@@ -449,6 +449,44 @@ Definition memory_size_text (size flags : N) : list N :=
      else if size <? N.shiftl 10 40 then dec (N.shiftr (N.shiftr size 29 + 1) 1) ++ lit "GiB"
      else dec (N.shiftr (N.shiftr size 39 + 1) 1) ++ lit "TiB").
 
+
+(* ------------------------------------------------------------------ *)
+(* hwloc_pci_class_string (pci-common.c): switch on the base class (class_id >> 8),
+   inner switch on the whole class_id, then the base class name (None: `break`,
+   i.e. "Other"); any other base class is "Other".  Hand transcription, tied to the
+   C function by the sweep of all 65536 class ids through hwloc_obj_attr_snprintf. *)
+Definition pci_class_names : list (N * option string * list (N * string)) := [
+    (0, None, [(1, "VGA")]);
+    (1, Some "Storage", [(256, "SCSI"); (257, "IDE"); (258, "Floppy"); (259, "IPI"); (260, "RAID"); (261, "ATA"); (262, "SATA"); (263, "SAS"); (264, "NVMExp")]);
+    (2, Some "Network", [(512, "Ethernet"); (513, "TokenRing"); (514, "FDDI"); (515, "ATM"); (516, "ISDN"); (517, "WorldFip"); (518, "PICMG"); (519, "InfiniBand"); (520, "Fabric")]);
+    (3, Some "Display", [(768, "VGA"); (769, "XGA"); (770, "3D")]);
+    (4, Some "Multimedia", [(1024, "MultimediaVideo"); (1025, "MultimediaAudio"); (1026, "Telephony"); (1027, "AudioDevice")]);
+    (5, Some "Memory", [(1280, "RAM"); (1281, "Flash"); (1282, "CXLMem")]);
+    (6, Some "Bridge", [(1536, "HostBridge"); (1537, "ISABridge"); (1538, "EISABridge"); (1539, "MicroChannelBridge"); (1540, "PCIBridge"); (1541, "PCMCIABridge"); (1542, "NubusBridge"); (1543, "CardBusBridge"); (1544, "RACEwayBridge"); (1545, "SemiTransparentPCIBridge"); (1546, "InfiniBandPCIHostBridge")]);
+    (7, Some "Communication", [(1792, "Serial"); (1793, "Parallel"); (1794, "MultiportSerial"); (1795, "Model"); (1796, "GPIB"); (1797, "SmartCard")]);
+    (8, Some "SystemPeripheral", [(2048, "PIC"); (2049, "DMA"); (2050, "Timer"); (2051, "RTC"); (2052, "PCIHotPlug"); (2053, "SDHost"); (2054, "IOMMU")]);
+    (9, Some "Input", [(2304, "Keyboard"); (2305, "DigitizerPen"); (2306, "Mouse"); (2307, "Scanern"); (2308, "Gameport")]);
+    (10, Some "DockingStation", []);
+    (11, Some "Processor", [(2816, "386"); (2817, "486"); (2818, "Pentium"); (2832, "Alpha"); (2848, "PowerPC"); (2864, "MIPS"); (2880, "Co-Processor")]);
+    (12, Some "SerialBus", [(3072, "FireWire"); (3073, "ACCESS"); (3074, "SSA"); (3075, "USB"); (3076, "FibreChannel"); (3077, "SMBus"); (3078, "InfiniBand"); (3079, "IPMI-SMIC"); (3080, "SERCOS"); (3081, "CANBUS")]);
+    (13, Some "Wireless", [(3328, "IRDA"); (3329, "ConsumerIR"); (3344, "RF"); (3345, "Bluetooth"); (3346, "Broadband"); (3360, "802.1a"); (3361, "802.1b")]);
+    (14, Some "Intelligent", [(3584, "I2O")]);
+    (15, Some "Satellite", []);
+    (16, Some "Encryption", []);
+    (17, Some "SignalProcessing", []);
+    (18, Some "ProcessingAccelerator", []);
+    (19, Some "Instrumentation", []);
+    (64, Some "Co-Processor", []) ]%string.
+Definition pci_class_string (class_id : N) : string :=
+  match find (fun e => fst (fst e) =? N.shiftr (N.land class_id 65280) 8) pci_class_names with
+  | Some (_, d, sp) =>
+    match find (fun x => fst x =? class_id) sp with
+    | Some (_, n) => n
+    | None => match d with Some n => n | None => "Other"%string end
+    end
+  | None => "Other"%string
+  end.
+
 (* ------------------------------------------------------------------ *)
 (* hwloc_obj_attr_snprintf *)
 Record aobj := AO {
@@ -460,7 +498,6 @@ Record aobj := AO {
   ao_bdomain : N; ao_bsec : N; ao_bsub : N;          (* bridge.downstream.pci *)
   ao_pdomain : N; ao_pbus : N; ao_pdev : N; ao_pfunc : N;
   ao_pvendor : N; ao_pdevice : N; ao_pclass : N;     (* attr->pcidev (= bridge.upstream.pci) *)
-  ao_pclass_text : list N;            (* hwloc_pci_class_string(class_id): opaque, supplied *)
   ao_link_nonzero : bool;             (* pcidev.linkspeed != 0 *)
   ao_link_text : list N;              (* "%.2f" of pcidev.linkspeed: opaque, supplied *)
   ao_infos : list (list N * list N)   (* infos.array[i].name / .value (without terminators) *)
@@ -476,7 +513,7 @@ Definition linkspeed_text (a : aobj) (sep : list N) : list N :=
 Definition busid_text (a : aobj) (sep : list N) : list N :=
   lit "busid=" ++ hex_w 4 (ao_pdomain a) ++ [58] ++ hex_w 2 (ao_pbus a) ++ [58] ++ hex_w 2 (ao_pdev a)
   ++ [46] ++ hex_w 1 (ao_pfunc a) ++ sep ++ lit "id=" ++ hex_w 4 (ao_pvendor a) ++ [58] ++ hex_w 4 (ao_pdevice a)
-  ++ sep ++ lit "class=" ++ hex_w 4 (ao_pclass a) ++ [40] ++ ao_pclass_text a ++ [41] ++ linkspeed_text a sep.
+  ++ sep ++ lit "class=" ++ hex_w 4 (ao_pclass a) ++ [40] ++ lit (pci_class_string (ao_pclass a)) ++ [41] ++ linkspeed_text a sep.
 
 Definition is_attr_cache_type (t : N) : bool := tcache t || (t =? HWLOC_OBJ_MEMCACHE).
 
@@ -559,3 +596,71 @@ Definition run_ops (init : list N) (ops : list pop) : option pstate :=
 
 Definition attr_snprintf (init : list N) (a : aobj) (sep : list N) (flags : N) : pr (option pstate) :=
   pr_map (run_ops init) (attr_snprintf_ops a sep flags).
+
+(* ------------------------------------------------------------------ *)
+(* hwloc_get_type_depth_with_attr / hwloc_type_sscanf_as_depth (traversal.c)
+   What they read of the topology: type_depth[] (through hwloc_get_type_depth) and,
+   for each level l, (levels[l][0]->type, levels[l][0]->attr->group.depth). *)
+Definition get_type_depth (tdepths : list Z) (t : N) : Z :=
+  if t <? HWLOC_OBJ_TYPE_MAX then nthN tdepths t HWLOC_TYPE_DEPTH_UNKNOWN else HWLOC_TYPE_DEPTH_UNKNOWN.
+
+(* for(l=0; l<nb_levels; l++) if (type == GROUP && group.depth == wanted) { depth = l; break; } *)
+Fixpoint find_group_level (levels : list (N * N)) (wanted : N) (l : Z) : Z :=
+  match levels with
+  | [] => HWLOC_TYPE_DEPTH_UNKNOWN
+  | (t, gd) :: r => if (t =? HWLOC_OBJ_GROUP) && (gd =? wanted) then l else find_group_level r wanted (l + 1)%Z
+  end.
+
+(* attr = Some group.depth when attrp != NULL (only that member is read, and only for Groups) *)
+Definition get_type_depth_with_attr (levels : list (N * N)) (tdepths : list Z)
+           (t : N) (attr : option N) (attrsize : N) : Z :=
+  let attr := if attrsize <? SIZEOF_ATTR_UNION then None else attr in
+  let depth := get_type_depth tdepths t in
+  match attr with
+  | Some gd =>
+    if (t =? HWLOC_OBJ_GROUP) && (depth =? HWLOC_TYPE_DEPTH_MULTIPLE)%Z && negb (gd =? NEG1U)
+    then find_group_level levels gd 0
+    else depth
+  | None => depth
+  end.
+
+(* None = the error of hwloc_type_sscanf (nothing stored); Some (type, depth) = 0 *)
+Definition type_sscanf_as_depth (chk : bool) (levels : list (N * N)) (tdepths : list Z) (s : list N) : res (option (N * Z)) :=
+  let* o := type_sscanf_vals chk s in
+  match o with
+  | None => Ok None
+  | Some v =>
+    (* attr is a full-size union filled by hwloc_type_sscanf: group.depth holds depthattr for a Group *)
+    Ok (Some (sv_type v, get_type_depth_with_attr levels tdepths (sv_type v) (Some (sv_depth v)) SIZEOF_ATTR_UNION))
+  end.
+Definition type_sscanf_as_depth_cur := type_sscanf_as_depth TYPE_MATCH_STOPS_AT_LITERAL_END.
+
+(* ------------------------------------------------------------------ *)
+(* memory tier names (memattrs.c): hwloc_memory_tier_type_snprintf / _sscanf.
+   Bits: HBM 1, DRAM 2, GPU 4, SPM 8, NVM 16, CXL 32 (enum local to memattrs.c). *)
+Definition TIER_HBM : N := 1.   Definition TIER_DRAM : N := 2.  Definition TIER_GPU : N := 4.
+Definition TIER_SPM : N := 8.   Definition TIER_NVM : N := 16.  Definition TIER_CXL : N := 32.
+(* the switch of _snprintf, in order; default: NULL *)
+Definition tier_names : list (N * string) :=
+  [ (TIER_DRAM, "DRAM"); (TIER_HBM, "HBM"); (TIER_GPU, "GPUMemory"); (TIER_SPM, "SPM"); (TIER_NVM, "NVM");
+    (TIER_CXL, "CXL-DRAM"); (N.lor TIER_CXL TIER_DRAM, "CXL-DRAM"); (N.lor TIER_CXL TIER_HBM, "CXL-HBM");
+    (N.lor TIER_CXL TIER_GPU, "CXL-GPUMemory"); (N.lor TIER_CXL TIER_SPM, "CXL-SPM"); (N.lor TIER_CXL TIER_NVM, "CXL-NVM") ]%string.
+Definition tier_type_snprintf (t : N) : option string :=
+  match find (fun e => fst e =? t) tier_names with Some (_, n) => Some n | None => None end.
+(* the if-chain of _sscanf: !strcasecmp(name, "lit"); 0 if none *)
+Definition tier_keywords : list (string * N) :=
+  [ ("DRAM", TIER_DRAM); ("HBM", TIER_HBM); ("GPUMemory", TIER_GPU); ("SPM", TIER_SPM); ("NVM", TIER_NVM);
+    ("CXL-DRAM", N.lor TIER_CXL TIER_DRAM); ("CXL-HBM", N.lor TIER_CXL TIER_HBM); ("CXL-GPUMemory", N.lor TIER_CXL TIER_GPU);
+    ("CXL-SPM", N.lor TIER_CXL TIER_SPM); ("CXL-NVM", N.lor TIER_CXL TIER_NVM) ]%string.
+(* strcasecmp(a, "lit") == 0: the comparison ends at the terminator of the literal at the latest *)
+Definition strcasecmp_eq (s : list N) (l : string) : res bool :=
+  cmp_eq (strncmp_f tolower (S (length (bytes_of_string l))) s 0 (cstr l) 0).
+Fixpoint tier_sscanf_chain (s : list N) (kws : list (string * N)) : res N :=
+  match kws with
+  | [] => Ok 0
+  | (k, v) :: r => let* b := strcasecmp_eq s k in if b then Ok v else tier_sscanf_chain s r
+  end.
+Definition tier_type_sscanf (s : list N) : res N := tier_sscanf_chain s tier_keywords.
+(* what HWLOC_MEMTIERS="<nodeset>=<name>" makes of the subtype of the nodes of the set *)
+Definition tier_forced_subtype (name : list N) : res (option string) :=
+  let* t := tier_type_sscanf name in Ok (tier_type_snprintf t).
